@@ -311,10 +311,25 @@ func c16Run(r *core.Run) {
 			opts = append(opts, c16Opts{Prefix: pf, Index: ix})
 		}
 	}
-	opts = append(opts, c16Opts{ETag: true}, c16Opts{Prefix: "/st", ETag: true, Expires: true, Cache: true}, c16Opts{Expires: true}, c16Opts{Cache: true, Index: "g.txt", ETag: true})
-	opts = append(opts, c16Opts{IOFS: true}, c16Opts{IOFS: true, Prefix: "/st", Index: "g.txt", ETag: true})
+	// every combination of the remaining options (thorough: with every prefix spelling)
+	pfs := []string{"", "/st"}
+	if r.Thorough() {
+		pfs = []string{"", "st", "/st", "st/", "/st/"}
+	}
+	for _, pf := range pfs {
+		for m := 1; m < 32; m++ {
+			o := c16Opts{Prefix: pf, ETag: m&1 != 0, Expires: m&2 != 0, Cache: m&4 != 0, IOFS: m&8 != 0}
+			if m&16 != 0 {
+				o.Index = "g.txt"
+			}
+			if !r.Thorough() && pf != "" && m%3 != 0 {
+				continue
+			}
+			opts = append(opts, o)
+		}
+	}
 	methods := []string{"GET", "HEAD", "POST", "PUT"}
-	r.Rule = "engine E: every request path of up to 3 (thorough 4) segments over {'', ., .., st, stx, pub, f.txt, d, e, h, secret.txt, index.html, %2e%2e, ..\\, f.txt+NUL, g.txt} with and without leading/trailing slash x methods {GET,HEAD,POST,PUT} x 16 option sets (5 prefix spellings x 2 index names, ETag/Expires/CacheControl combinations, Directory vs an io/fs FileSystem) x If-None-Match {absent, matching, other} over a real directory tree with files outside it; oracle = resolution model over an in-memory copy of the fixture + independent invariants (a 200 body is the content of a regular file inside the directory, no outside token ever appears, 'cannot serve' leaves exactly the rest of the chain's response); non-trivial = path containing '..', an empty segment, NUL, a prefix look-alike or a directory"
+	r.Rule = "engine E: every request path of up to 3 (thorough 4) segments over {'', ., .., st, stx, pub, f.txt, d, e, h, secret.txt, index.html, %2e%2e, ..\\, f.txt+NUL, g.txt} with and without leading/trailing slash x methods {GET,HEAD,POST,PUT} x the option sets (5 prefix spellings x 2 index names, and every combination of ETag/Expires/CacheControl/index/io-fs FileSystem with 2-5 prefix spellings) x If-None-Match {absent, matching, other} over a real directory tree with files outside it; oracle = resolution model over an in-memory copy of the fixture + independent invariants (a 200 body is the content of a regular file inside the directory, no outside token ever appears, 'cannot serve' leaves exactly the rest of the chain's response); non-trivial = path containing '..', an empty segment, NUL, a prefix look-alike or a directory"
 	r.Bounds["paths"] = len(paths)
 	r.Bounds["option_sets"] = len(opts)
 	r.Bounds["methods"] = methods
